@@ -593,12 +593,12 @@ func c08ArrList(c *Ctx) {
 			if strings.HasPrefix(mOuter, "ok ") {
 				model += " 0"
 			}
-		case mInner == "error" || mOuter == "error":
+		case mInner == "error" || mOuter == "error" || mMap == "error":
 			model = "error"
-		case mInner == "panic" || mOuter == "panic":
+		case mInner == "panic" || mOuter == "panic" || mMap == "panic":
 			model = "panic"
 		default:
-			model = mOuter + " " + mMap
+			model = mOuter + " " + strings.TrimPrefix(mMap, "ok ")
 		}
 		prog := a.prog
 		res := c08GuardRendered(5*time.Second, func() (string, error) {
@@ -642,7 +642,10 @@ func c08ArrList(c *Ctx) {
 				Broken: "correspondence C08.arr (Martian.LexerActions.arrList, mapDim; Props.C08.arr_list_total)"})
 		}
 		if class == "ok" && strings.HasSuffix(impl, " -32768") {
-			r.hist("action:arr_list:mapdim-wrapped")
+			// Props.C08.map_dim_wraps is about the action before its repair: the real code must not wrap any more
+			r.violate(Violation{Kind: "property", Key: "C08:mapdim-wrapped",
+				What:  "the map dimension of a map type wrapped around (int16): the type is then treated as its element type",
+				Input: a.short, Impl: impl, Expect: "a located error (too many array dimensions)", Broken: "Props.C08.map_dim_total"})
 		}
 	}
 }
@@ -672,6 +675,15 @@ func c08ActWitnesses(c *Ctx) {
 		r.violate(Violation{Kind: "correspondence", Key: "C08:action-mismatch:witness-arr",
 			What:  "negative witness arrListUnguarded_wraps does not replay",
 			Input: "32768 pairs", Impl: fmt.Sprintf("ok %d", d), Model: reps[2] + " / " + reps[3], Broken: "Props.C08.arr_list_unguarded_wraps"})
+	}
+	// map_dim_wraps: the unguarded 1 + int16(32767); the guarded action is an error there (the real
+	// code is compared with the guarded model in c08ArrList)
+	md := c.Drv.AskBatch([][]string{{"C08.mapdim0", "32767"}, {"C08.mapdim", "32767"}, {"C08.mapdim", "32766"}})
+	r.count("act:witness:mapdim", true)
+	if md[0] != fmt.Sprintf("%d", d) || md[1] != "error" || md[2] != "ok 32767" {
+		r.violate(Violation{Kind: "correspondence", Key: "C08:action-mismatch:witness-mapdim",
+			What:  "negative witness map_dim_wraps (unguarded) / map_dim_total (guarded) does not replay on the model",
+			Input: "32767 inner dimensions", Impl: fmt.Sprintf("%d / error / ok 32767", d), Model: strings.Join(md, " / "), Broken: "Props.C08.map_dim_wraps"})
 	}
 }
 
